@@ -15,6 +15,13 @@
                                                                     utf8_is_valid_accepts_text
    integer conversions exact over the full range of each type     integer_roundtrips_in_range, integer_roundtrips_cast,
      (libc printf/strto* MODELLED as reference functions: trusted)  integer_prints_canonical, integer_parses_canonical
+                                                                    (the three parse statements are corollaries of the next block)
+   the parsers on ALL byte strings (the property text is silent;  parsers_total_within_terminator (checked reads on the String's
+     the code hands them to libc, modelled): total, nothing read    buffer: never Err, = the list functions), parsers_never_fail,
+     beyond the terminator, white space / sign / longest digit      parsers_ignore_bytes_behind_terminator, parsers_on_all_strings
+     prefix, value clamped / wrapped per type, rest ignored         (every s has the shape ws ++ sign ++ digits ++ rest and the four results
+                                                                    are parsed_int/uint/int64/uint64 of sign and digits), parsers_value_of_shape
+                                                                    (any such reading of s gives these results), noncanonical_forms_agree
    fromHex yields the upper-case hexadecimal text                 hex_is_upper_hex (hex digit table regenerated)
    fromBase64 returns the original bytes for every RFC 4648       base64_inverts_rfc4648 (all byte strings: induction
      encoding                                                       over 3-byte groups + 3 tails), base64_decodes_every_rfc4648_text
@@ -26,7 +33,7 @@
    (the code looks at its input through (char)/(unsigned char) casts only). *)
 From Coq Require Import ZArith List.
 From Common Require Import Words ListAux.
-From Codec Require Import Gen_Codec CodecSpec CodecModel CodecProofs CodecProofsInt.
+From Codec Require Import Gen_Codec CodecSpec CodecModel CodecProofs CodecProofsInt CodecProofsParse.
 Import ListNotations.
 Local Open Scope Z_scope.
 
@@ -111,7 +118,7 @@ Theorem integer_roundtrips_in_range :
   (forall v, 0 <= v <= uint_max -> to_uint (from_uint v) = v) /\
   (forall v, int64_min <= v <= int64_max -> to_int64 (from_int64 v) = v) /\
   (forall v, 0 <= v <= uint64_max -> to_uint64 (from_uint64 v) = v).
-Proof. exact CodecProofsInt.integer_roundtrips_in_range. Qed.
+Proof. exact integer_roundtrips_in_range_cor. Qed.
 Print Assumptions integer_roundtrips_in_range.
 Example integer_roundtrips_nv :
   from_int int_min = [45; 50; 49; 52; 55; 52; 56; 51; 54; 52; 56] /\ to_int (from_int int_min) = int_min /\
@@ -122,7 +129,7 @@ Proof. vm_compute. repeat split. Qed.
 Theorem integer_roundtrips_cast : forall v,
   to_int (from_int v) = sx32 v /\ to_uint (from_uint v) = w32 v /\
   to_int64 (from_int64 v) = sx64 v /\ to_uint64 (from_uint64 v) = w64 v.
-Proof. exact (fun v => conj (int_roundtrip v) (conj (uint_roundtrip v) (conj (int64_roundtrip v) (uint64_roundtrip v)))). Qed.
+Proof. exact integer_roundtrips_cast_cor. Qed.
 Print Assumptions integer_roundtrips_cast.
 Example integer_roundtrips_cast_nv : to_int (from_int 2147483648) = -2147483648 /\ to_uint (from_uint (-1)) = 4294967295.
 Proof. vm_compute. split; reflexivity. Qed.
@@ -143,11 +150,86 @@ Theorem integer_parses_canonical : forall s v, decimal_of s v ->
   (0 <= v <= uint_max -> to_uint s = v) /\
   (int64_min <= v <= int64_max -> to_int64 s = v) /\
   (0 <= v <= uint64_max -> to_uint64 s = v).
-Proof. exact CodecProofsInt.integer_parses_canonical. Qed.
+Proof. exact integer_parses_canonical_cor. Qed.
 Print Assumptions integer_parses_canonical.
 Example integer_parses_canonical_nv : decimal_of [45; 49; 50] (-12) /\ to_int [45; 49; 50] = -12 /\
   to_uint64 [49; 56; 52; 52; 54; 55; 52; 52; 48; 55; 51; 55; 48; 57; 53; 53; 49; 54; 49; 53] = uint64_max.
 Proof. split; [exists [49; 50]; repeat split|vm_compute; split; reflexivity]. Qed.
+
+(* ---- integers: the parsers on every byte string (checked reads; libc modelled) ------------------------------ *)
+
+(* String::toInt() ... run on the String's own buffer `s ++ [0]` with every byte fetched by a checked read: never an
+   error (no read beyond the terminator, no fuel exhaustion), and the result is the list function of the model *)
+Theorem parsers_total_within_terminator : forall s,
+  to_int_chk s = Ok (to_int s) /\ to_uint_chk s = Ok (to_uint s) /\
+  to_int64_chk s = Ok (to_int64 s) /\ to_uint64_chk s = Ok (to_uint64 s).
+Proof. exact parsers_checked_total. Qed.
+Print Assumptions parsers_total_within_terminator.
+
+Theorem parsers_never_fail : forall s e,
+  to_int_chk s <> Err e /\ to_uint_chk s <> Err e /\ to_int64_chk s <> Err e /\ to_uint64_chk s <> Err e.
+Proof. exact CodecProofsParse.parsers_never_fail. Qed.
+Print Assumptions parsers_never_fail.
+
+(* whatever lies behind the terminator (nothing at all, or any bytes) is not looked at; the same for the bytes of s
+   behind an embedded NUL, since s itself is arbitrary *)
+Theorem parsers_ignore_bytes_behind_terminator : forall s junk,
+  strtol64_at (s ++ 0 :: junk) = Ok (to_int64 s) /\ strtoul64_at (s ++ 0 :: junk) = Ok (to_uint64 s).
+Proof. exact (fun s junk => conj (strtol64_at_ok s junk) (strtoul64_at_ok s junk)). Qed.
+Print Assumptions parsers_ignore_bytes_behind_terminator.
+Example parsers_checked_nv :
+  to_int_chk [32; 9; 43; 48; 48; 49; 50; 120; 57] = Ok 12 /\              (* " \t+0012x9" *)
+  to_int_chk [49; 0; 50] = Ok 1 /\ to_uint_chk [] = Ok 0 /\ to_int64_chk [45] = Ok 0 /\
+  strtol64_at ([49; 50] ++ 0 :: [51; 52]) = Ok 12 /\ strtol64_at [49; 50] = Err OutOfBounds /\   (* no terminator: the model does see the over-read *)
+  to_uint64_chk [45; 49] = Ok 18446744073709551615.
+Proof. vm_compute. repeat split. Qed.
+
+(* every byte string: leading white space, optional sign, longest digit prefix, rest; the value of the prefix per type:
+     toInt64  = the signed value clamped to [-2^63, 2^63-1]
+     toUInt64 = 2^64-1 when the magnitude exceeds it, else the magnitude, negated modulo 2^64 after '-'
+     toInt    = toInt64 truncated to 32 bit (two's complement), toUInt = toUInt64 modulo 2^32
+     no digit: 0.  The bytes of `rest` do not occur on the right-hand sides: they are ignored. *)
+Theorem parsers_on_all_strings : forall s,
+  exists ws sg neg ds rest, decimal_shape s ws sg neg ds rest /\
+    to_int64 s = parsed_int64 neg ds /\ to_uint64 s = parsed_uint64 neg ds /\
+    to_int s = parsed_int neg ds /\ to_uint s = parsed_uint neg ds.
+Proof. exact CodecProofsParse.parsers_on_all_strings. Qed.
+Print Assumptions parsers_on_all_strings.
+
+Theorem parsers_value_of_shape : forall s ws sg neg ds rest, decimal_shape s ws sg neg ds rest ->
+  to_int64 s = parsed_int64 neg ds /\ to_uint64 s = parsed_uint64 neg ds /\
+  to_int s = parsed_int neg ds /\ to_uint s = parsed_uint neg ds.
+Proof. exact CodecProofsParse.parsers_value_of_shape. Qed.
+Print Assumptions parsers_value_of_shape.
+Example parsers_shape_nv :
+  decimal_shape [32; 9; 43; 48; 48; 49; 50; 120; 57] [32; 9] [43] false [48; 48; 49; 50] [120; 57] /\
+  decimal_shape [45; 45; 53] [] [45] true [] [45; 53] /\                                  (* "--5": sign, no digit, value 0 *)
+  parsed_int false [50; 49; 52; 55; 52; 56; 51; 54; 52; 56] = -2147483648 /\             (* "2147483648" wraps *)
+  to_int [57; 50; 50; 51; 51; 55; 50; 48; 51; 54; 56; 53; 52; 55; 55; 53; 56; 48; 56] = -1 /\  (* 2^63: clamped to 2^63-1, then truncated *)
+  to_int64 [45; 57; 50; 50; 51; 51; 55; 50; 48; 51; 54; 56; 53; 52; 55; 55; 53; 56; 48; 57] = int64_min /\   (* -2^63-1 *)
+  to_uint [45; 49] = 4294967295 /\ to_uint64 [45; 49] = uint64_max /\
+  to_uint [49; 56; 52; 52; 54; 55; 52; 52; 48; 55; 51; 55; 48; 57; 53; 53; 49; 54; 49; 54] = 4294967295 /\   (* 2^64: clamped, then truncated *)
+  to_uint64 [45; 49; 56; 52; 52; 54; 55; 52; 52; 48; 55; 51; 55; 48; 57; 53; 53; 49; 54; 49; 54] = uint64_max.
+Proof.
+  split. { split; [reflexivity|]. split; [reflexivity|]. split; [right; left; split; reflexivity|]. split; [discriminate|]. split; reflexivity. }
+  split. { split; [reflexivity|]. split; [reflexivity|]. split; [right; right; split; reflexivity|]. split; [discriminate|]. split; reflexivity. }
+  vm_compute. repeat split.
+Qed.
+
+Theorem noncanonical_forms_agree : forall ws zs ds rest,
+  forallb is_space ws = true -> forallb (fun c => c =? 48) zs = true -> forallb is_digit ds = true -> ds <> [] ->
+  first_is is_digit rest = false ->
+  (forall sg, sg = [] \/ sg = [43] ->
+     let s := ws ++ sg ++ (zs ++ ds) ++ rest in
+     to_int s = to_int ds /\ to_uint s = to_uint ds /\ to_int64 s = to_int64 ds /\ to_uint64 s = to_uint64 ds) /\
+  (let s := ws ++ [45] ++ (zs ++ ds) ++ rest in
+   to_int s = to_int (45 :: ds) /\ to_uint s = to_uint (45 :: ds) /\ to_int64 s = to_int64 (45 :: ds) /\ to_uint64 s = to_uint64 (45 :: ds)).
+Proof. exact CodecProofsParse.noncanonical_forms_agree. Qed.
+Print Assumptions noncanonical_forms_agree.
+Example noncanonical_forms_agree_nv :
+  to_int ([32; 10] ++ [43] ++ ([48; 48] ++ [52; 50]) ++ [32; 55]) = 42 /\ to_int [52; 50] = 42 /\
+  to_uint ([13] ++ [45] ++ ([48] ++ [49]) ++ [46; 53]) = 4294967295.
+Proof. vm_compute. repeat split. Qed.
 
 (* ---- hex ------------------------------------------------------------------------------------------------ *)
 
